@@ -603,7 +603,7 @@ def rule_window_form(ctx, which, units=None):
             if base is None:
                 continue
             offl = [x for x in _locals_in(off)]
-            if not offl or not contains(off, ER):
+            if not offl:
                 continue
             posv = offl[0]
             # role: is this variable a search start (first arg of upper_bound / scanned) or a search end (second arg)?
@@ -631,16 +631,22 @@ def rule_window_form(ctx, which, units=None):
                 else:
                     # cap symbol: the atom of the offset that is neither pos nor a template parameter
                     cands = [s for s in subterms(off) if s[0] in ('local', 'call', 'field') and s != posv and not contains(s, posv)]
+                    cands.sort(key=lambda s: 0 if s[0] == 'call' else 1 if s[0] == 'local' else 2)
                     ok, why = False, 'no level-size term found'
                     S = None
+                    first_why = None
                     for s_ in cands:
                         try:
                             ok, why = form.equivalent(off, form.ADD(posv, ER, s_))
                         except form.Unrecognised:
                             continue
+                        if first_why is None:
+                            first_why = why
                         if ok:
                             S = s_
                             break
+                    if not ok and first_why is not None:
+                        why = first_why
                     req = 'window end = level_begin + (pos+EpsRec+2 >= level_size ? level_size : pos+EpsRec+2)'
                     if ok:
                         # level_size must be the size of the level being searched
@@ -1008,7 +1014,19 @@ def rule_bucket_agree(ctx, units=None):
         if mo:
             a = b.n(mo[0])['args']
             okb = _strip_cast(b.term(a[1], inline=False)) == STEP
-            whyb = f"boundary = {fmt_term(b.term(a[0], inline=False))} * {fmt_term(b.term(a[1], inline=False))}"
+            whyb = f"boundary = {fmt_term(b.term(a[0], inline=False))} * {fmt_term(b.term(a[1], inline=False))} with overflow detection"
+        else:
+            # a plain product is fine only if it is evaluated in a type wider than the key type (cannot wrap)
+            kt = b.unit.base_type(q.params[0]['t'])
+            for i in b.all_ids():
+                nd = b.n(i)
+                if nd['c'] == 'BinaryOperator' and nd['op'] == '*' and reachable(b, i) and contains(b.term(i, inline=False), STEP):
+                    rt = b.unit.type(nd['t'])
+                    wide = rt.get('k') == 'int' and kt and rt.get('bits', 0) > kt.get('bits', 0)
+                    okb = bool(wide)
+                    mo = [i]
+                    whyb = (f"boundary = {fmt_term(b.term(i, inline=False))} evaluated in {rt['s']} for {kt['s'] if kt else '?'} keys: " +
+                            ('cannot wrap' if wide else 'wraps when the key span approaches the range of the key type, emptying the last buckets'))
         cmpok = False
         for i in b.all_ids():
             nd = b.n(i)
